@@ -914,6 +914,11 @@ class Command(Frame):
 
         until, duration = _normalise_until(mode, active, until, duration)
 
+        if mode == ZON_MODE_MAP.TEMPORARY and until is None:  # a 1F41 with mode 04 needs an until
+            raise exc.CommandInvalid(
+                f"Invalid args: For mode={mode}, until cant be None"
+            )
+
         payload = "".join(
             (
                 dhw_idx,
